@@ -26,7 +26,27 @@ static bool parse_fmt(const std::vector<std::string>& w, size_t at, OffsetFormat
   return true;
 }
 
+// Inputs on which the pinned tree executes undefined behaviour (fixes/C17-2.patch) are answered "skip-ub" unless
+// VH_C17_UB=1: (a) a sign-bit format negates INT64_MIN, (b) kAArch32_ADR reaches `Support::ror(v, 0)`.
+// tools/props/c17.py probes both once (separate process) and enables them when the tree is repaired.
+static bool ub_enabled() { static int v = -1; if (v < 0) { const char* e = getenv("VH_C17_UB"); v = (e && e[0] == '1'); } return v != 0; }
+
+static bool hits_ub(const OffsetFormat& f, uint64_t off) {
+  if (!f.has_sign_bit()) return false;
+  if (off == 0x8000000000000000ull) return true;
+  if (f.type() != OffsetType::kAArch32_ADR) return false;
+  uint64_t a = int64_t(off) < 0 ? 0 - off : off;
+  if (f.imm_discard_lsb()) { if (a & ((1ull << f.imm_discard_lsb()) - 1)) return false; a >>= f.imm_discard_lsb(); }
+  uint64_t m = f.imm_bit_count() >= 32 ? 0xFFFFFFFFull : ((1ull << f.imm_bit_count()) - 1);
+  if ((a & m) != a) return false;
+  uint32_t v = uint32_t(a);
+  if (v <= 0xFF) return false;
+  if (v & 0xFF0000FFu) v = (v >> 16) | (v << 16);
+  return (v & 3u) != 0;      // ctz(v) & ~1 == 0  ->  ror(v, 0)
+}
+
 static std::string enc_out(const OffsetFormat& f, uint64_t off) {
+  if (!ub_enabled() && hits_ub(f, off)) return "skip-ub";
   if (f.value_size() == 8) {
     uint64_t m = 0;
     if (!CodeWriterUtils::encode_offset64(&m, int64_t(off), f)) return "fail";
@@ -86,6 +106,58 @@ static std::string step(const std::string& line) {
     bool ok = a64::encode_lmh(uint32_t(sz), uint32_t(idx), Out(o));
     return std::string(ok ? "1 " : "0 ") + std::to_string(o.lm) + " " + std::to_string(o.h) + " " + std::to_string(o.max_rm_id);
   }
+  if (w[0] == "direct") {
+    // the assembler's direct displacement path (EmitOp_DispImm): absolute target, known base address
+    uint64_t off;
+    if (w.size() != 3 || !vh::parse_hex(w[2], off)) return "bad-op";
+    const uint64_t base = 0x0000100000000000ull;     // page aligned, so that ADRP's pc & ~4095 is the base too
+    Environment env(Arch::kAArch64);
+    CodeHolder code;
+    if (code.init(env, base) != Error::kOk) return "init-failed";
+    a64::Assembler a(&code);
+    Imm target(base + off);
+    Error err;
+    if (w[1] == "b") err = a.b(target);
+    else if (w[1] == "bl") err = a.bl(target);
+    else if (w[1] == "beq") err = a.b(a64::CondCode::kEQ, target);
+    else if (w[1] == "cbz") err = a.cbz(a64::x3, target);
+    else if (w[1] == "tbz") err = a.tbz(a64::x3, Imm(5), target);
+    else if (w[1] == "adr") err = a.adr(a64::x3, target);
+    else if (w[1] == "adrp") err = a.adrp(a64::x3, target);
+    else return "bad-op";
+    if (err != Error::kOk) return std::string("err ") + DebugUtils::error_as_string(err);
+    if (code.text_section()->buffer_size() != 4) return "size-not-4";
+    uint32_t word; memcpy(&word, code.text_section()->data(), 4);
+    return "ok " + vh::to_hex(word);
+  }
+  if (w[0] == "bf") {
+    // bf <alias> <x> <lsb hex> <width hex>: the real assembler on `alias Rd=3, Rn=7, #lsb, #width`
+    uint64_t x, lsb, width;
+    if (w.size() != 5 || !vh::parse_u64(w[2], x) || x > 1 || !vh::parse_hex(w[3], lsb) || !vh::parse_hex(w[4], width)) return "bad-op";
+    Environment env(Arch::kAArch64);
+    CodeHolder code;
+    if (code.init(env) != Error::kOk) return "init-failed";
+    a64::Assembler a(&code);
+    a64::Gp rd = x ? a64::Gp(a64::x3) : a64::Gp(a64::w3);
+    a64::Gp rn = x ? a64::Gp(a64::x7) : a64::Gp(a64::w7);
+    Imm il(lsb), iw(width);
+    Error err;
+    if (w[1] == "bfc") err = a.bfc(rd, il, iw);
+    else if (w[1] == "bfi") err = a.bfi(rd, rn, il, iw);
+    else if (w[1] == "sbfiz") err = a.sbfiz(rd, rn, il, iw);
+    else if (w[1] == "ubfiz") err = a.ubfiz(rd, rn, il, iw);
+    else if (w[1] == "bfxil") err = a.bfxil(rd, rn, il, iw);
+    else if (w[1] == "sbfx") err = a.sbfx(rd, rn, il, iw);
+    else if (w[1] == "ubfx") err = a.ubfx(rd, rn, il, iw);
+    else if (w[1] == "bfm") err = a.bfm(rd, rn, il, iw);
+    else if (w[1] == "sbfm") err = a.sbfm(rd, rn, il, iw);
+    else if (w[1] == "ubfm") err = a.ubfm(rd, rn, il, iw);
+    else return "bad-op";
+    if (err != Error::kOk) return std::string("err ") + DebugUtils::error_as_string(err);
+    if (code.text_section()->buffer_size() != 4) return "size-not-4";
+    uint32_t word; memcpy(&word, code.text_section()->data(), 4);
+    return "ok " + vh::to_hex(word);
+  }
   if (w[0] == "enc") {
     uint64_t off;
     if (w.size() != 8 || !parse_fmt(w, 1, f) || !vh::parse_hex(w[7], off)) return "bad-op";
@@ -99,6 +171,7 @@ static std::string step(const std::string& line) {
     size_t p = size_t(pos) + f.value_offset();
     if (!(f.value_size() == 1 || f.value_size() == 2 || f.value_size() == 4 || f.value_size() == 8)) return "fail";
     if (p + f.value_size() > buf.size()) return "fail";
+    if (!ub_enabled() && hits_ub(f, off)) return "skip-ub";
     // guard bytes around the buffer
     std::vector<uint8_t> g(buf.size() + 32, 0xA5);
     memcpy(g.data() + 16, buf.data(), buf.size());
